@@ -548,7 +548,7 @@ pub fn exec(c: &RenderCase, st: &mut Stats) -> Vec<Viol> {
                 let orig = orig_lines.get((*n as usize).wrapping_sub(1)).copied().unwrap_or("");
                 let tabs = orig.chars().filter(|c| *c == '\t').count();
                 let w = shown.chars().count();
-                if w > 2 * c.radius + 1 + 2 + 3 * tabs {
+                if w > c.radius.saturating_mul(2).saturating_add(1 + 2 + 3 * tabs) {
                     // Deliberate deviation in crop_line_by_cols: a context line that ends before the crop
                     // window starts is kept intact ("avoids turning short context lines into just …").
                     // (For reader input the retained window may hold only the beginning of that line.)
@@ -907,7 +907,7 @@ pub fn gen_case(tier: Tier, seed: u64, idx: u64) -> Case {
     ]);
     let doc = gen_doc(&mut drng, target);
     let mut rng = Rng::for_case(seed, "C17", idx);
-    let radius = if member < 5 { RADII[member as usize] } else { *rng.pick(&RADII) };
+    let radius = if member < 5 { RADII[member as usize] } else { *rng.pick(&[0, 1, 5, 64, 10_000, 2, 17, usize::MAX, usize::MAX / 2 + 1]) };
     // members 8 and 9 of a group: the same text as UTF-16 (little / big endian) through the reader
     let utf16 = if member >= 8 && !doc.starts_with('\u{feff}') { Some(member == 9) } else { None };
     let raw: Vec<u8> = match utf16 {
